@@ -476,14 +476,29 @@ def gen_batch_norm(draw):
     args = {"form": form, "training": training, "stats": stats, "has_w": has_w, "has_b": has_b,
             "eps": draw(st.sampled_from([1e-5, 1e-3, 0.1])),
             "momentum": draw(st.sampled_from([0.1, 0.5, 1.0, 0.01]))}
+    args["offset"] = [draw(st.sampled_from([0, 0, 0, 1, -1])) for _ in range(C)]
+    # another (training-mode) call on the same layer / buffers between this call and its backward
+    args["interleave"] = draw(st.sampled_from([False, False, True]))
     if stats:
         args["rm"] = [draw(st.integers(-16, 16)) / 8.0 for _ in range(C)]
         args["rv"] = [draw(st.integers(2, 40)) / 8.0 for _ in range(C)]
     return {"xs": xs, "args": args}
 
 
+def _bn_offset(args, x_shape, dtype):
+    """per-channel offset (exactly representable together with the k/8 grid): data whose mean is far from its spread"""
+    if not any(args.get("offset", [])):
+        return None
+    big = 1.0e4 if np.dtype(dtype) == np.float64 else 64.0
+    off = np.array(args["offset"], dtype=np.float64) * big
+    return off.reshape([1, len(off)] + [1] * (len(x_shape) - 2))
+
+
 def apply_batch_norm(ts, args):
     x = ts[0]
+    off = _bn_offset(args, x.shape, args.get("_dtype", str(x.dtype)))
+    if off is not None:
+        x = x + Tensor(off.astype(x.dtype))
     i = 1
     w = b = None
     if args["has_w"]:
@@ -494,8 +509,12 @@ def apply_batch_norm(ts, args):
     rm = Tensor(np.array(args["rm"], dtype=dt)) if args["stats"] else None
     rv = Tensor(np.array(args["rv"], dtype=dt)) if args["stats"] else None
     LAST["bn_buffers"] = (rm, rv)
+    other = Tensor((np.arange(x.data.size, dtype=np.float64).reshape(x.shape) % 5 - 1.5).astype(dt))
     if args["form"] == "fn":
-        return F.batch_norm(x, w, b, rm, rv, args["training"], args["momentum"], args["eps"])
+        out = F.batch_norm(x, w, b, rm, rv, args["training"], args["momentum"], args["eps"])
+        if args.get("interleave"):
+            F.batch_norm(other, w, b, rm, rv, True, args["momentum"], args["eps"])
+        return out
     cls = nn.BatchNorm2d if x.ndim >= 4 else nn.BatchNorm1d
     m = cls(x.shape[1], eps=args["eps"], momentum=args["momentum"], affine=args["has_w"],
             track_running_stats=args["stats"], dtype=dt.type)
@@ -507,11 +526,18 @@ def apply_batch_norm(ts, args):
         m.running_var = rv
     if not args["training"]:
         m.eval()
-    return m(x)
+    out = m(x)
+    if args.get("interleave"):
+        m.train()
+        m(other)
+    return out
 
 
 def ref_batch_norm(xs, args):
     x = xs[0]
+    off = _bn_offset(args, x.shape, args.get("_dtype", "float64"))
+    if off is not None:
+        x = x + off
     i = 1
     w = b = None
     if args["has_w"]:
@@ -538,7 +564,7 @@ def ref_batch_norm(xs, args):
 
 
 def _bn_tags(a, s):
-    t = ["training" if a["training"] else "eval", "stats" if a["stats"] else "no_stats",
+    t = (["offset_data"] if any(a.get("offset", [])) else []) + (["interleaved_call"] if a.get("interleave") else []) + ["training" if a["training"] else "eval", "stats" if a["stats"] else "no_stats",
          "affine" if a["has_w"] and a["has_b"] else ("no_affine" if not a["has_w"] and not a["has_b"] else "partial_affine"),
          "rank_%d" % len(s[0]), a["form"]]
     return t
@@ -579,13 +605,13 @@ def gen_flatten_layer(draw):
 
 
 def apply_flatten_layer(ts, args):
-    m = nn.Flatten(args["start"], args["end"]) if args else nn.Flatten()
+    m = nn.Flatten(args["start"], args["end"]) if "start" in args else nn.Flatten()
     return m(ts[0])
 
 
 def ref_flatten_layer(xs, args):
     x = xs[0]
-    s, e = (args["start"], args["end"] % x.ndim) if args else (1, x.ndim - 1)
+    s, e = (args["start"], args["end"] % x.ndim) if "start" in args else (1, x.ndim - 1)
     return x.reshape(list(x.shape[:s]) + [-1] + list(x.shape[e + 1:]))
 
 
@@ -632,7 +658,7 @@ OPS = [
         nt=lambda a, s: len(_fold_tags(a, s)) > 0, tags=lambda a, s: _fold_tags(a, s) + [a["form"]]),
     TOp("batch_norm", gen_batch_norm, apply_batch_norm, ref_batch_norm, nt=_bn_nt, tags=_bn_tags),
     TOp("flatten_layer", gen_flatten_layer, apply_flatten_layer, ref_flatten_layer, exact=True,
-        nt=lambda a, s: bool(a), tags=lambda a, s: ["custom_dims"] if a else ["default"]),
+        nt=lambda a, s: "start" in a, tags=lambda a, s: ["custom_dims"] if "start" in a else ["default"]),
 ]
 # dropout has no deterministic reference for its mask: gradient (C02) and C13 only
 DROPOUT = TOp("dropout", gen_dropout, apply_dropout, None,
@@ -640,6 +666,8 @@ DROPOUT = TOp("dropout", gen_dropout, apply_dropout, None,
               tags=lambda a, s: ["training" if a["training"] else "eval", "p=%g" % a["p"]])
 
 BY_NAME = {o.name: o for o in OPS + [DROPOUT]}
+# finite differences through data that sits 1e4 away from its spread need a larger step (noise ~ ulp(1e4)/h)
+BY_NAME["batch_norm"].fd_hscale = lambda a: 100.0 if any(a.get("offset", [])) and a.get("_dtype") == "float64" else 1.0
 for _n in ("relu", "leaky_relu", "linear", "conv1d", "conv2d", "max_pool1d", "max_pool2d", "avg_pool1d", "avg_pool2d", "unfold",
            "fold", "loss_mse", "flatten_layer", "dropout", "batch_norm"):
     BY_NAME[_n].scales = (1.0, 1.0, 1.0, 128.0, 1.0 / 64)
